@@ -95,6 +95,11 @@ pub fn io_err(kind: IoKind) -> io::Error {
         IoKind::Interrupted => io::Error::new(io::ErrorKind::Interrupted, "simulated: Interrupted system call (os error 4)"),
         IoKind::InvalidData => io::Error::new(io::ErrorKind::InvalidData, "simulated: stream did not contain valid data"),
         IoKind::Other => io::Error::new(io::ErrorKind::Other, "simulated: Input/output error (os error 5)"),
+        IoKind::LongTextA => io::Error::new(io::ErrorKind::TimedOut, "応答がありません。".repeat(40)),
+        IoKind::LongTextB => io::Error::new(io::ErrorKind::TimedOut, format!("x{}", "応答がありません。".repeat(40))),
+        IoKind::LongTextC => io::Error::new(io::ErrorKind::WouldBlock, format!("xy{}", "応答がありません。".repeat(40))),
+        IoKind::EmptyText => io::Error::new(io::ErrorKind::Other, ""),
+        IoKind::MultiLineText => io::Error::new(io::ErrorKind::Other, "simulated: upstream said\n  503 Service Unavailable\n\n(retry later)\n"),
     }
 }
 
